@@ -370,7 +370,7 @@ def _worker_loop(engine, tier, seed, indices, run_timeout, want_logs):
             out["harness"].append({"run": i, "what": status, "trace": scrub(str(res))[-3000:], "plan": plan})
             continue
         out["stats"].merge(Stats.load(res["stats"]))
-        rec = {"run": i, "seed": rs, "log": res["log_digest"], "events": res["n_events"]}
+        rec = {"run": i, "seed": rs, "log": res["log_digest"], "events": res["n_events"], "aux": res.get("aux_digest")}
         if want_logs:
             rec["log_events"] = res.get("log_events")
         out["runs"].append(rec)
@@ -571,7 +571,7 @@ def write_replay(prop, plan, key, res, minimised_from=None, execs=0):
         "run": plan.get("run"),
         "run_seed": plan.get("run_seed"),
         "log_digest": res.get("log_digest") if res else None,
-        "detail": [v for v in (res or {}).get("violations", []) if vkey(v) == key][:3],
+        "detail": [{k: v.get(k) for k in ("cls", "site", "detail")} for v in (res or {}).get("violations", []) if vkey(v) == key][:3],
         "minimised_from": minimised_from,
         "minimiser_executions": execs,
         "plan_pickle": pickle.dumps(plan, protocol=4).hex(),
